@@ -547,7 +547,12 @@ theorem evalBuiltin_sim_step {σ : Sh} {fuel : Nat} (ih : SimSpec σ fuel) : ∀
     refine SimAt.ite (fun _ => SimAt.pure hR2 rfl) (fun _ => ?_)
     split
     · cases val with
-      | error m => exact SimAt.pure hR2 rfl
+      | error m =>
+        simp only [ren]
+        refine sim_curEnv_bind hR2 ?_
+        refine SimAt.bind (sim_triggerNoCache hR2 t2.cur) ?_
+        intro _ _ s3 t3 hR3 _
+        exact SimAt.pure hR3 rfl
       | _ => all_goals exact SimAt.pure hR2 rfl
     · refine SimAt.bind (sim_valueOf hR2 val) ?_
       rintro _ v s3 t3 hR3 ⟨rfl, _⟩
